@@ -572,7 +572,7 @@ def scenario_cases():
 
 def gen_cases(ctx):
     thorough = ctx.tier == "thorough"
-    n = 2600 if thorough else 420
+    n = 6000 if thorough else 420
     cases = [dict(c, origin="scenario") for c in scenario_cases()]
     cdir = os.path.join(common.VERIF, "corpus", "C13")
     if os.path.isdir(cdir):
@@ -583,7 +583,7 @@ def gen_cases(ctx):
     for i in range(n):
         x = ctx.rng.random()
         mode = "clean" if x < 0.6 else "stale" if x < 0.85 else "poison"
-        g = Gen(ctx.rng, mode != "clean", ctx.rng.choice([12, 20, 30, 40]), failwalk=(mode == "poison"))
+        g = Gen(ctx.rng, mode != "clean", ctx.rng.choice([12, 20, 30, 40] + ([60] if thorough else [])), failwalk=(mode == "poison"))
         c = g.build()
         c["origin"] = mode
         cases.append(c)
@@ -827,8 +827,8 @@ def run(ctx):
         "the walk is modelled with fuel 12 (object graphs deeper than 12 are outside the model; generated graphs have depth <= 6)",
         "Python object identity is an abstract object id; reuse of id() values after garbage collection is not modelled "
         "(the driver keeps every object alive and clears the recursion cache between histories)",
-        "answers of the model are compared for prior_count, path_priors_tuples, prior_tuples_ordered_by_id, instance_from_vector "
-        "and info; other cached functions (models_with_type, model_tuples_with_type) are not queried",
+        "answers are compared for prior_count, path_priors_tuples, prior_tuples_ordered_by_id, instance_from_vector, info and "
+        "models_with_type (all seven frozen_cache functions are exercised); instance_from_unit_vector, all_paths, all_names are not queried",
     ]
     built = ctx.build()
     cases = gen_cases(ctx)
